@@ -77,7 +77,10 @@ def gen_case(rng, tier, idx):
     if sc['component'] == 'ga':
         envs.append('allocfail')
     envs = [e if e != 'allocfail' or sc['component'] == 'ga' else 'prior' for e in envs]
-    if sc['component'] not in ('semimdp', 'rollout_mdp', 'evaluate_mdp') or sc['problem'].get('type') != 'mdp':
+    if sc['component'] == 'rollout_pomdp':
+        if 'shared' not in envs:
+            envs.append('shared')
+    elif sc['component'] not in ('semimdp', 'rollout_mdp', 'evaluate_mdp') or sc['problem'].get('type') != 'mdp':
         envs = [e if e != 'shared' else 'nested' for e in envs]
     elif 'shared' not in envs and rng.random() < 0.5:
         envs.append('shared')
@@ -367,7 +370,7 @@ def execute(case, script=None):
                 gset(12)
                 sched.fire('F10_shared_object')
                 out, _, _ = _run(sc, ctx, sched, share=True)
-                compare(out, 'option-or-policy-object-first-used-on-another-model')
+                compare(out, 'policy-object-rolled-out-before-with-other-seeds' if comp == 'rollout_pomdp' else 'option-or-policy-object-first-used-on-another-model')
             elif envname == 'nested':
                 gset(11)
                 which = prng.randrange(3)
